@@ -12,6 +12,7 @@ import re
 import shutil
 import subprocess
 import sys
+import threading
 import time
 
 VERIF = os.path.dirname(os.path.dirname(os.path.abspath(__file__)))
@@ -151,9 +152,20 @@ def sh(cmd, timeout=600, cwd=None, env=None):
         return 124, (out or '') + '\nTIMEOUT after %ss' % timeout, time.time() - t0
 
 
+_COQC_RETRY_LOCK = threading.Lock()
+
+
 def coqc(path, timeout=600, extra=()):
+    """Compile one file.  A run that dies WITHOUT a Coq error message (killed for memory on a loaded machine, or
+    timed out while 100+ other coqc processes compete) says nothing about the file: it is repeated once, alone
+    (one retry at a time), with twice the time.  A Coq `Error:` is never retried."""
     cmd = ['coqc', '-Q', COQ, 'Spowtd'] + COQ_WARN + list(extra) + [path]
-    return sh(cmd, timeout=timeout, cwd=os.path.dirname(path))
+    rc, out, secs = sh(cmd, timeout=timeout, cwd=os.path.dirname(path))
+    if rc != 0 and 'Error' not in out:
+        with _COQC_RETRY_LOCK:
+            rc2, out2, secs2 = sh(cmd, timeout=2 * timeout, cwd=os.path.dirname(path))
+        return rc2, out2 + ('\n(first attempt ended with status %s and no Coq error; retried alone)' % rc), secs + secs2
+    return rc, out, secs
 
 
 def ensure_makefile():
